@@ -64,7 +64,12 @@ type fieldInfo struct {
 	kind string // "str", "int", "uint", "float", "list"
 }
 
-func ff(v float64) string { return strconv.FormatFloat(v, 'g', -1, 64) }
+func ff(v float64) string {
+	if v == 0 {
+		v = 0 // -0 and 0 are the same threshold
+	}
+	return strconv.FormatFloat(v, 'g', -1, 64)
+}
 
 func withID(id, canon string) string { return "id=" + id + "|" + canon }
 
